@@ -761,9 +761,11 @@ def check_window_case(case):
             if k in ovs:
                 t = ovs[k]
                 er = t.get('error_rate', {})
-                wlo = er['min'] - 1e-9 if er.get('min') is not None else rates[0]
-                whi = er['max'] + 1e-9 if er.get('max') is not None else rates[-1]
-                if (lo, hi) != (wlo, whi):
+                # the given limits, widened by a negligible tolerance at most (the code uses 1e-9); the data range
+                # where no limit is given
+                ok_lo = (er['min'] - 1e-7 <= lo <= er['min']) if er.get('min') is not None else lo == rates[0]
+                ok_hi = (er['max'] <= hi <= er['max'] + 1e-7) if er.get('max') is not None else hi == rates[-1]
+                if not (ok_lo and ok_hi):
                     case['_check'] = 'truncate'
                     return f'manual window {t}: p_left/p_right = {lo}, {hi}'
                 dd = t.get('d', {})
